@@ -183,6 +183,7 @@ def generate(unit, repo, vacuity=False, falsify=False, stub_fns=None, drop_asser
     header = '#![feature(allocator_api)]\nuse vstd::prelude::*;\n'
     chunks.append(header)
     pre_text = ''
+    prelude_names = set()   # type / trait names the trusted stubs define: they stand for DEPENDENCY items
     for p in unit.prelude:
         private = False
         if isinstance(p, tuple):
@@ -194,6 +195,8 @@ def generate(unit, repo, vacuity=False, falsify=False, stub_fns=None, drop_asser
         if private:
             t = _privatise(t)
         pre_text += '// ---- prelude: %s (trusted stubs: assumed contracts on dependencies)\n' % p + t + '\n'
+        for m_ in re.finditer(r'^\s*(?:pub(?:\([^)]*\))?\s+)?(?:struct|enum|trait|type|union)\s+([A-Z]\w*)', t, re.M):
+            prelude_names.add(m_.group(1))
     spec_text = ''
     for p in unit.spec:
         with open(os.path.join(CONTRACTS, p)) as f:
@@ -313,6 +316,14 @@ def generate(unit, repo, vacuity=False, falsify=False, stub_fns=None, drop_asser
             try:
                 if stub_fns and key in stub_fns:
                     raise A.Lost('function uses a construct outside the verifier\'s subset (or its annotations no longer fit)')
+                # a name that the prelude defines as a stub of a DEPENDENCY item must not be (re)defined by the repository file the
+                # function comes from: the stub's assumed contract would silently be applied to the local definition
+                src_chk = src_all if spec.file != _ex.EXPANDED else _ex.expanded_text(repo)
+                if src_chk:
+                    own = {getattr(sp_, 'path', [''])[-1].split()[-1] for sp_ in unit.items if getattr(sp_, 'kind', '') == 'struct'}
+                    for nm_ in sorted(prelude_names - own):
+                        if re.search(r'\b%s\b' % nm_, base_text) and re.search(r'^\s*(?:pub(?:\([^)]*\))?\s+)?(?:unsafe\s+)?(?:struct|enum|trait|union)\s+%s\b' % nm_, src_chk, re.M):
+                            raise A.Lost('`%s` is defined in %s itself: the prelude stub of the dependency item of that name does not describe it' % (nm_, spec.file))
                 if spec.ret:
                     text = A.set_return_name(text, spec.ret)
                 def cname(n):
